@@ -488,9 +488,40 @@ def oob_mean_guarded(ck, prog):
                                f"(every in-bag row when n_trees = 1) and predict_oob returns Ok with NaN")
 
 
+def oob_vote_nonempty(ck, prog):
+    """Classifier sibling of the rule above: the OOB vote tally starts at zero and is incremented under the mask test only,
+    so it is ALL ZERO for a row every tree drew; which_max of an all-zero tally is index 0 and predict_oob returns
+    Ok(classes[0]) as if an out-of-bag tree had voted.  Rule: predict_for_row_oob tests the number of votes (a conditional
+    counter, or a sum / max / any over the tally) before the arg-max is taken as the answer."""
+    rule, inst = "E2-guarded-division", "classifier predict_for_row_oob: the number of out-of-bag votes is tested before the arg-max is taken"
+    b = prog.bodies.get("ensemble::random_forest_classifier::RandomForestClassifier::<T>::predict_for_row_oob")
+    if b is None:
+        ck.violation(rule, inst, "predict_for_row_oob", "", expected="anchor exists", found="anchor vanished")
+        return
+    from sa.e1 import BodyCtx
+    cx = BodyCtx.of(b)
+    amax = [bb for bb, t in b.calls() if t.get("f") and t["f"]["path"].split("::")[-1] in ("which_max", "max_by_key", "max_by", "position_max")]
+    if not amax:
+        ck.note(f"{inst}: no arg-max over a tally in predict_for_row_oob: no instance")
+        return
+    tested = []
+    for c in cx.cmps:
+        for (L, R) in ((c.lhs, c.rhs), (c.rhs, c.lhs)):
+            if R == ("int", 0) and L[0] in ("phi", "call", "local") and not (L[0] == "call" and L[1].endswith(("::len", "shape"))):
+                tested.append(c.where)
+    if tested:
+        ck.ok(rule, inst, b.path, tested[0], "a vote count is compared with 0")
+    else:
+        ck.violation(rule, inst, b.path, b.where(amax[0]), ordinal=0,
+                     expected="a test that at least one tree was out-of-bag for the row (error or marker otherwise)",
+                     found="which_max of the tally is returned unconditionally: for a row contained in every bootstrap sample (every in-bag row when "
+                           "n_trees = 1) the tally is all zero and predict_oob returns Ok with classes[0]")
+
+
 def run(ck, prog):
     _run_pre_oobdiv(ck, prog)
     oob_mean_guarded(ck, prog)
+    oob_vote_nonempty(ck, prog)
 
 
 # ------------------------------------------------------------------ generic: `while counter < bound` loops advance their counter
